@@ -3,6 +3,7 @@ package main
 import (
 	"go/token"
 	"go/types"
+	"sort"
 	"strings"
 
 	"golang.org/x/tools/go/ssa"
@@ -534,6 +535,20 @@ func ruleMapOrder(c *Ctx, r *R) {
 				r.ok(e.States == ss(0), name+"|i-unchanged-otherwise@"+itoa(int(e.Ret.Block().Index)), retPos(e.Ret), "the expected index must not advance on a path that yields nothing")
 			}
 		}
+		// ... and the expected index is never set in any other way: jumping it to the heap minimum's idx ("hand out what is
+		// finished") skips the gap left by a failed item and yields results beyond it
+		nSet := 0
+		for _, dd := range deepInstrs(fn, 2) {
+			st, ok := dd.in.(*ssa.Store)
+			if !ok {
+				continue
+			}
+			if _, f, ok := storedField(st.Addr); !ok || f != expF {
+				continue
+			}
+			nSet++
+			r.ok(isFieldIncDec(st, expF, +1), name+"|i-only-incremented#"+itoa(nSet), st.Pos(), "the expected index may only advance by one per yielded item; this store sets it to "+path(st.Val)+": results after a gap (a failed or missing item) would be yielded")
+		}
 		// everything received is pushed: the ok branch of the receive pushes the received item
 		okPush := false
 		instrs(fn, func(b *ssa.BasicBlock, i int, in ssa.Instruction) {
@@ -913,3 +928,61 @@ func fieldSetByCtor(v ssa.Value, env provEnv) ssa.Value {
 	})
 	return out
 }
+
+// C14.no-foreign-call-under-lock: the mutex of mapIterator protects the slot accounting only. Code the library does not control -
+// the source iterator's Next, the user's f - is never called while it is held: mapIterator.Next needs the same mutex to give a
+// slot back, so a source that yields its next item only after the consumer has seen an earlier result (a work queue fed from the
+// results) would block the producer inside iter.Next() with the lock held, and the consumer on the lock: deadlock.
+var _ = late(func() {
+	p := properties["C14"]
+	p.Rules = append(p.Rules, &Rule{ID: "C14.no-foreign-call-under-lock", Floor: 2, Clause: "in parallel.MapIterator and mapIterator's methods no call of foreign code (the source's Next, the callback f) is made with the iterator's mutex held: the consumer needs that mutex to return a slot, so a source or callback that waits for the consumer would deadlock",
+		Run: func(c *Ctx, r *R) {
+			var fns []*ssa.Function
+			if root := c.fn("parallel.MapIterator"); root != nil {
+				fns = append(fns, withAnon(root)...)
+			}
+			for _, m := range c.methodsOf("parallel", "mapIterator") {
+				fns = append(fns, withAnon(m)...)
+			}
+			sort.Slice(fns, func(i, j int) bool { return c.nameOf(fns[i]) < c.nameOf(fns[j]) })
+			if len(fns) == 0 {
+				r.undecided("parallel.MapIterator|missing", token.NoPos, "anchor not found")
+				return
+			}
+			for _, fn := range fns {
+				name := c.nameOf(fn)
+				held := locksIn(fn, entryLocks(c, fn, 0))
+				n := 0
+				instrs(fn, func(_ *ssa.BasicBlock, _ int, in ssa.Instruction) {
+					call, ok := in.(*ssa.Call)
+					if !ok {
+						return
+					}
+					what := ""
+					switch {
+					case call.Call.IsInvoke() && (call.Call.Method.Name() == "Next" || call.Call.Method.Name() == "Peek"):
+						what = "the source's " + call.Call.Method.Name()
+					case !call.Call.IsInvoke():
+						switch call.Call.Value.(type) {
+						case *ssa.Function, *ssa.Builtin, *ssa.MakeClosure:
+						default:
+							if _, isSig := call.Call.Value.Type().Underlying().(*types.Signature); isSig && call.Call.Signature().Recv() == nil {
+								if nt, isNamed := call.Call.Value.Type().(*types.Named); !isNamed || nt.Obj().Name() != "CancelFunc" {
+									what = "the callback " + path(call.Call.Value)
+								}
+							}
+						}
+					}
+					if what == "" {
+						return
+					}
+					n++
+					locked := ""
+					for lk := range held[call] {
+						locked = lk
+					}
+					r.ok(locked == "", name+"|foreign-call#"+itoa(n), call.Pos(), what+" is called while "+locked+" is held: mapIterator.Next needs that mutex to hand a slot back, so a source / callback that waits for the consumer deadlocks the iterator")
+				})
+			}
+		}})
+})
